@@ -203,6 +203,10 @@ func (a *Affiliation) computeTriggersForCastingSites(pass *analysishelper.Enhanc
 						//  Tracked in issue #46.
 						lhsType := pass.TypesInfo.TypeOf(nodeType.Elt)
 						for _, elt := range node.Elts {
+							if kv, ok := elt.(*ast.KeyValueExpr); ok {
+								// an element with an explicit index, e.g., []I{0: &S{}}
+								elt = kv.Value
+							}
 							appendTypeToTypeTriggers(lhsType, pass.TypesInfo.TypeOf(elt))
 						}
 					case *ast.MapType:
